@@ -81,6 +81,7 @@ type TB struct {
 	ufs   map[string]*ufDecl
 	fresh map[string]int
 	groundByRoot map[int][]*Term
+	selMemo map[[2]int]*Term
 }
 
 type ufDecl struct {
@@ -339,7 +340,7 @@ func (tb *TB) UF(name string, res *Sort, args ...*Term) *Term {
 	return tb.mk("uf:"+name, res, name, nil, args...)
 }
 
-func (tb *TB) Select(a, i *Term) *Term {
+func (tb *TB) selectRaw(a, i *Term) *Term {
 	if a.Sort.Kind != SArray {
 		panic("select on non-array " + tb.Show(a))
 	}
@@ -794,12 +795,27 @@ func (tb *TB) Script(asserts []*Term, wantModel bool, logic string) string {
 		fmt.Fprintf(&sb, "(declare-fun %s (%s) %s)\n", smtName(n), strings.Join(as, " "), d.res)
 	}
 	defined := map[int]string{}
+	var caAxioms, caDecls []string
 	var render func(t *Term) string
 	render = func(t *Term) string {
 		if n, ok := defined[t.ID]; ok {
 			return n
 		}
 		switch {
+		case t.Op == "copyarr":
+			// array-level copy that survived to the output: a fresh array with its defining axiom
+			n := fmt.Sprintf("|ca!%d|", t.ID)
+			defined[t.ID] = n
+			d, do, sa, so, cnt := render(t.Args[0]), render(t.Args[1]), render(t.Args[2]), render(t.Args[3]), render(t.Args[4])
+			is := t.Args[1].Sort
+			le, lt, add, sub := "<=", "<", "+", "-"
+			if is.Kind == SBV {
+				le, lt, add, sub = "bvsle", "bvslt", "bvadd", "bvsub"
+			}
+			caDecls = append(caDecls, fmt.Sprintf("(declare-fun %s () %s)\n", n, t.Sort))
+			caAxioms = append(caAxioms, fmt.Sprintf("(assert (forall ((ci %s)) (! (= (select %s ci) (ite (and (%s %s ci) (%s ci (%s %s %s))) (select %s (%s (%s ci %s) %s)) (select %s ci))) :pattern ((select %s ci)))))\n",
+				is, n, le, do, lt, add, do, cnt, sa, add, sub, do, so, d, n))
+			return n
 		case t.Op == "var":
 			return smtName(t.Name)
 		case t.Op == "const":
@@ -824,23 +840,101 @@ func (tb *TB) Script(asserts []*Term, wantModel bool, logic string) string {
 		}
 		return "(" + strings.Join(parts, " ") + ")"
 	}
+	var body strings.Builder
 	for _, t := range order {
 		if t.Op == "var" || t.Op == "const" || hasBound[t.ID] {
+			continue
+		}
+		if t.Op == "copyarr" {
+			render(t)
 			continue
 		}
 		if refs[t.ID] > 1 {
 			s := render(t)
 			n := fmt.Sprintf("t%d", t.ID)
-			fmt.Fprintf(&sb, "(define-fun %s () %s %s)\n", n, t.Sort, s)
+			fmt.Fprintf(&body, "(define-fun %s () %s %s)\n", n, t.Sort, s)
 			defined[t.ID] = n
 		}
 	}
 	for _, a := range asserts {
-		fmt.Fprintf(&sb, "(assert %s)\n", render(a))
+		fmt.Fprintf(&body, "(assert %s)\n", render(a))
+	}
+	// copyarr constants are declared up front; their axioms mention defined names, so they follow the definitions.
+	// A definition may mention a ca constant, hence declarations first.
+	for _, d := range caDecls {
+		sb.WriteString(d)
+	}
+	sb.WriteString(body.String())
+	for _, a := range caAxioms {
+		sb.WriteString(a)
 	}
 	sb.WriteString("(check-sat)\n")
 	if wantModel {
 		sb.WriteString("(get-model)\n")
 	}
 	return sb.String()
+}
+
+// Select reads an array element, pushing the read through store / ite /
+// constant arrays / array copies so that array-level operators disappear.
+func (tb *TB) Select(a, i *Term) *Term {
+	if tb.selMemo == nil {
+		tb.selMemo = map[[2]int]*Term{}
+	}
+	key := [2]int{a.ID, i.ID}
+	if r, ok := tb.selMemo[key]; ok {
+		return r
+	}
+	r := tb.select0(a, i)
+	tb.selMemo[key] = r
+	return r
+}
+
+func (tb *TB) idxLe(a, b *Term) *Term {
+	if a.Sort.Kind == SBV {
+		return tb.BVCmp("bvsle", a, b)
+	}
+	return tb.Le(a, b)
+}
+func (tb *TB) idxLt(a, b *Term) *Term {
+	if a.Sort.Kind == SBV {
+		return tb.BVCmp("bvslt", a, b)
+	}
+	return tb.Lt(a, b)
+}
+func (tb *TB) idxAdd(a, b *Term) *Term {
+	if a.Sort.Kind == SBV {
+		return tb.BVBin("bvadd", a, b)
+	}
+	return tb.Add(a, b)
+}
+func (tb *TB) idxSub(a, b *Term) *Term {
+	if a.Sort.Kind == SBV {
+		return tb.BVBin("bvsub", a, b)
+	}
+	return tb.Sub(a, b)
+}
+
+func (tb *TB) select0(a, i *Term) *Term {
+	switch a.Op {
+	case "store":
+		j := a.Args[1]
+		if j == i {
+			return a.Args[2]
+		}
+		if j.IsConst() && i.IsConst() {
+			return tb.Select(a.Args[0], i)
+		}
+		return tb.Ite(tb.Eq(i, j), a.Args[2], tb.Select(a.Args[0], i))
+	case "ite":
+		return tb.Ite(a.Args[0], tb.Select(a.Args[1], i), tb.Select(a.Args[2], i))
+	case "constarr":
+		return a.Args[0]
+	case "copyarr":
+		// copyarr(dst, dstOff, src, srcOff, n)
+		d, do, s, so, n := a.Args[0], a.Args[1], a.Args[2], a.Args[3], a.Args[4]
+		in := tb.And(tb.idxLe(do, i), tb.idxLt(i, tb.idxAdd(do, n)))
+		return tb.Ite(in, tb.Select(s, tb.idxAdd(tb.idxSub(i, do), so)), tb.Select(d, i))
+	}
+	return tb.selectRaw(a, i)
 }
